@@ -186,6 +186,24 @@ func (f *File) Close() error {
 	return err
 }
 
+// ReadAt is a scheduling point (class fs-read) before the real read.
+func (f *File) ReadAt(b []byte, off int64) (int, error) {
+	if f == nil || f.File == nil {
+		return 0, os.ErrInvalid
+	}
+	vrt.Point("fs-read", f.path)
+	return f.File.ReadAt(b, off)
+}
+
+// Read is a scheduling point (class fs-read) before the real read.
+func (f *File) Read(b []byte) (int, error) {
+	if f == nil || f.File == nil {
+		return 0, os.ErrInvalid
+	}
+	vrt.Point("fs-read", f.path)
+	return f.File.Read(b)
+}
+
 // WriteAt wraps (*os.File).WriteAt.
 func (f *File) WriteAt(b []byte, off int64) (int, error) {
 	if f == nil || f.File == nil {
